@@ -108,6 +108,90 @@ def handover_order(ctx, p):
         ctx.ob(p + 'k defer-clean-uses-old-id', 'K4-provenance', dc.path, 'defer_commit cleans with old_id', bad is None, bad or '')
 
 
+LOG_OVERLAY_MAPS = ['.LogOverlays.index', '.LogOverlays.value', '.LogOverlays.ref_count', '.IndexLogOverlay.map', '.ValueLogOverlay.map', '.RefCountLogOverlay.map']
+COMMIT_OVERLAY_MAPS = ['.CommitOverlay.indexed', '.CommitOverlay.address', '.CommitOverlay.btree_indexed']
+
+
+def overlay_bound_params(F, maps, skip_prefixes=('log::LogWriter', 'log::LogChange')):
+    """(crate function path -> set of parameter locals) that are bound, at some call site, to a reference derived from one of
+    the shared overlay maps (helpers that receive the map as `&mut HashMap<..>`); fixed point over the call graph."""
+    key = ('ovl_bound',) + tuple(maps)
+    cache = F.__dict__.setdefault('_ovl_cache', {})
+    if key in cache:
+        return cache[key]
+    bound = {}
+    changed = True
+    while changed:
+        changed = False
+        for b in F.bodies.values():
+            if b.path.startswith(skip_prefixes):
+                continue
+            mine = bound.get(b.path, set())
+            for bi, t in b.calls():
+                cb = None
+                for n in core.call_names(t):
+                    if F.body(n) is not None:
+                        cb = F.body(n)
+                        break
+                if cb is None or cb.path.startswith(skip_prefixes):
+                    continue
+                for i, a in enumerate(t['a']):
+                    pl = op_place(a)
+                    if pl is None:
+                        continue
+                    ty = str(cb.locals[i + 1]) if i + 1 < len(cb.locals) else ''
+                    if 'HashMap<' not in ty and 'BTreeMap<' not in ty and 'LogOverlay' not in ty and 'CommitOverlay' not in ty:
+                        continue
+                    sl = backward_slice(b, [pl], through_calls=True)
+                    if any(m in sl.fields for m in maps) or (sl.params & mine):
+                        if (i + 1) not in bound.setdefault(cb.path, set()):
+                            bound[cb.path].add(i + 1); changed = True
+    cache[key] = bound
+    return bound
+
+
+def receiver_is_overlay(F, b, t, maps, bound):
+    """does argument 0 of the call derive from one of the overlay maps (directly, or through a bound parameter)?"""
+    if not t['a'] or op_place(t['a'][0]) is None:
+        return None
+    sl = backward_slice(b, [op_place(t['a'][0])])
+    hit = [m for m in maps if m in sl.fields]
+    if hit:
+        return hit[0]
+    if sl.params & bound.get(b.path, set()):
+        return '(overlay map parameter _%d)' % sorted(sl.params & bound[b.path])[0]
+    return None
+
+
+def overlay_entries_replaced_whole(ctx, p):
+    """an entry of the shared log overlay is never edited in place: publication replaces (tag, data) together, so that the tag
+    always names the youngest record that wrote the chunk/value and end_read of an older record leaves it alone."""
+    F = ctx.F
+    EDIT = re.compile(r'(HashMap.*::(get_mut|get_many_mut|iter_mut|values_mut|get_or_insert_with)|hash_map::(OccupiedEntry|VacantEntry|Entry).*::(get_mut|into_mut|and_modify|or_insert|or_insert_with|or_insert_with_key|or_default)|hash_map::(IterMut|ValuesMut).*::next)$')
+    bound = overlay_bound_params(F, LOG_OVERLAY_MAPS)
+    bad = []
+    nwrite = 0
+    for b in sorted(F.bodies.values(), key=lambda x: x.path):
+        if b.path.startswith(('log::LogWriter', 'log::LogChange')):
+            continue
+        for bi, t in b.calls():
+            if bi not in b.normal_blocks():
+                continue
+            nm = t.get('r') or t.get('f') or ''
+            if re.search(r'(HashMap.*::(insert|extend)|Extend<.*>>::extend)$', nm) and receiver_is_overlay(F, b, t, LOG_OVERLAY_MAPS, bound):
+                nwrite += 1
+                continue
+            if not EDIT.search(nm) or 'Vec<' in nm:
+                continue
+            # entry handles: receiver derives from a HashMap::entry call on an overlay map
+            hit = receiver_is_overlay(F, b, t, LOG_OVERLAY_MAPS, bound)
+            if hit and ('HashMap' in nm or 'hash_map::' in nm):
+                bad.append('%s on %s in %s at %s' % (nm.split('::')[-1], hit, b.path, b.loc(bi)))
+    ctx.ob(p + 'h log-overlay-entries-replaced-whole', 'K4-confinement', '-',
+           'outside the record under construction, entries of the shared log overlay are only inserted/extended whole (tag and data together) - never looked up mutably or edited in place (a kept older tag would let end_read of the older record drop the younger record\'s data)',
+           not bad and nwrite >= 3, '; '.join(bad[:4]) or 'whole-entry writes: %d' % nwrite)
+
+
 def owner_id_removal(ctx, p):
     """every removal from a commit-overlay / log-overlay map is guarded by the owner id (record id tag == argument),
     except the wholesale reset at the end of a failed replay."""
@@ -117,6 +201,7 @@ def owner_id_removal(ctx, p):
             '.IndexLogOverlay.map', '.ValueLogOverlay.map', '.RefCountLogOverlay.map']
     RESET_OK = {'log::Log::clear_replay_logs': 'replay is over (or failed): the log overlay is emptied wholesale before the logs are cleaned'}
     n = 0
+    bound = overlay_bound_params(F, maps)
     for b in sorted(F.bodies.values(), key=lambda x: x.path):
         if b.path.startswith(('log::LogWriter', 'log::LogChange')):
             continue      # the record being built (local overlays of a LogWriter), not the shared overlays
@@ -126,13 +211,11 @@ def owner_id_removal(ctx, p):
             nm = t.get('r') or t.get('f') or ''
             if not RM.search(nm) or not t['a']:
                 continue
-            fl = lib.receiver_fields(b, t, 0)
-            hit = [m for m in maps if m in fl]
-            # BTreeChangeSet::clean_overlay receives the btree overlay map itself as a parameter
-            if not hit and b.path == CLEAN_BT and op_place(t['a'][0]) is not None and 2 in backward_slice(b, [op_place(t['a'][0])]).params:
-                hit = ['(btree overlay parameter)']
-            if not hit:
+            # the map itself, or a parameter some caller binds to the map (BTreeChangeSet::clean_overlay, helpers)
+            h = receiver_is_overlay(F, b, t, maps, bound)
+            if not h:
                 continue
+            hit = [h if not h.startswith('(overlay map parameter') or b.path != CLEAN_BT else '(btree overlay parameter)']
             if b.path in RESET_OK:
                 ctx.ob(p + 'a overlay-reset %s %s' % (b.path, hit[0]), 'K4-confinement', b.path, 'wholesale reset, reviewed: ' + RESET_OK[b.path], nm.endswith('::clear'), nm, b.loc(bi))
                 continue
@@ -228,8 +311,15 @@ def atomic_publication(ctx, p):
         ext = [bi for b, bi in lib.calls_on_field(F, ['re:(Extend.*>::extend|HashMap.*::extend|HashMap.*::insert)$'], '.LogOverlays.index', bodies=[er])]
         ext += [bi for b, bi in lib.calls_on_field(F, ['re:(Extend.*>::extend|HashMap.*::extend|HashMap.*::insert)$'], '.LogOverlays.value', bodies=[er])]
         ext += [bi for b, bi in lib.calls_on_field(F, ['re:(Extend.*>::extend|HashMap.*::extend|HashMap.*::insert)$'], '.LogOverlays.ref_count', bodies=[er])]
+        # a helper that receives the map (bound parameter) and inserts/extends it counts as the publication site
+        bound = overlay_bound_params(F, LOG_OVERLAY_MAPS)
+        for bi, t in er.calls():
+            cbs = [F.body(n) for n in core.call_names(t) if F.body(n) is not None and n in bound]
+            if cbs and bi in er.normal_blocks() and any(op_place(a) is not None and any(m in backward_slice(er, [op_place(a)]).fields for m in LOG_OVERLAY_MAPS) for a in t['a']):
+                ext.append(bi)
         ext = sorted(set(ext))
-        ctx.ob(p + 'd end_record-anchors', 'anchor', er.path, 'end_record extends the three log-overlay maps', len(ext) == 3, 'extend sites: %s' % ext)
+        ctx.ob(p + 'd end_record-anchors', 'anchor', er.path, 'end_record publishes into the three log-overlay maps', len(ext) >= 3, 'publication sites: %s' % ext)
+        overlay_entries_replaced_whole(ctx, p)
         lib.same_guard_at(ctx, p + 'e one-guard-over-log-publication', er, ext, '.Log.overlays',
                           'index, value and ref-count chunks of a record enter the log overlay under one write guard', mode='write')
         fl = er.call_sites('log::LogChange::flush_to_file')
@@ -505,3 +595,66 @@ def reachable_only_through(F, fn, gate):
             seen.add(c)
             stack.append(c)
     return True
+
+
+def more_work_signal(ctx, p):
+    """process_commits reports `true` whenever it took a commit off the queue - also when it put it back (deferral): the log
+    worker and the drain loop of kill_logs stop as soon as it reports `false`, and whatever is queued then is never logged."""
+    pc = ctx.body('db::DbInner::process_commits')
+    if not pc:
+        return
+    src = pc.call_sites('db::DbInner::defer_commit') + pc.call_sites('log::Log::end_record')
+    ctx.ob(p + 'a more-work-anchors', 'anchor', pc.path, 'process_commits has a deferral site and a logging site', len(src) >= 2, str(src))
+    errs = core.error_exit_blocks(pc)
+    bad = []
+    n = 0
+    for s in src:
+        reach = pc.reachable_from([s])
+        for bi in sorted(reach):
+            if bi in errs or bi not in pc.normal_blocks():
+                continue
+            for st in pc.blocks[bi]['s']:
+                if st['k'] == 'assign' and st['p'] == [0] and st['r']['k'] == 'agg' and st['r']['ak'] == 'Adt:std::result::Result::Ok':
+                    n += 1
+                    a = st['r']['a'][0]
+                    if a.get('i') != 1:
+                        bad.append('Ok(%s) at %s after the site at %s' % (core.op_str(a), pc.loc(bi), pc.loc(s)))
+            t = pc.term(bi)
+            if t['k'] == 'call' and t['d'] == [0] and not core.call_matches(t, ['std::ops::FromResidual::from_residual']):
+                n += 1
+                bad.append('result of %s returned as is at %s' % ((t.get('r') or t.get('f')), pc.loc(bi)))
+    ctx.ob(p + 'b took-a-commit-means-more-work', 'K8-const', pc.path,
+           'every success return after a commit was logged or re-queued is the constant Ok(true) (the drain loops of log_worker and kill_logs run until Ok(false))', not bad and n >= 2, '; '.join(sorted(set(bad))[:3]) or '%d exits' % n)
+
+
+def drop_table_idempotent(ctx, p):
+    """a logged DropTable names the table it drops; replaying it when that table is already gone must do nothing (the front of the
+    reindex queue is then the NEXT table): the pop/unlink is decided by comparing the front entry's id with the id from the record."""
+    F = ctx.F
+    for fn, idf in (('column::HashColumn::drop_index', '.IndexTable.id'), ('column::HashColumn::drop_ref_count', '.RefCountTable.id')):
+        b = ctx.body(fn)
+        if not b:
+            continue
+        pops = [bi for bi, t in b.calls() if bi in b.normal_blocks() and call_matches(t, ['re:VecDeque.*::(pop_front|pop_back|remove|drain|clear|truncate)$']) and '.Reindex.queue' in lib.receiver_fields(b, t, 0)]
+        unl = lib.sites_reaching(b, ['index::IndexTable::drop_file', 'ref_count::RefCountTable::drop_file', 're:std::fs::remove_file$'], lift=False)
+        ctx.ob(p + 'a drop-anchors %s' % fn, 'anchor', fn, 'the function dequeues the table and unlinks its file', len(pops) >= 1 and len(unl) >= 1, '%s %s' % (pops, unl))
+        for s in pops + unl:
+            calls, fields, binops = lib.guard_influences(b, s)
+            ok = False
+            det = 'no comparison of the queued table id with the id argument decides this effect'
+            cands = [b] + [F.body(c) for c in lib.deep_calls(F, calls) if F.body(c) is not None and (c.startswith(fn + '::{closure') or c in calls)]
+            for cb in cands:
+                for bi, t in cb.calls():
+                    if not call_matches(t, ['re:PartialEq>::(eq|ne)$', 'std::cmp::PartialEq::eq', 'std::cmp::PartialEq::ne']) or len(t['a']) < 2:
+                        continue
+                    sl = [backward_slice(cb, [op_place(a)]) if op_place(a) else None for a in t['a'][:2]]
+                    if any(x is None for x in sl):
+                        continue
+                    for x, y in ((sl[0], sl[1]), (sl[1], sl[0])):
+                        from_queue = idf in x.fields
+                        # the other side: the `id` argument of the function (param 2) or a closure capture of it
+                        from_arg = (cb is b and 2 in y.params) or (cb is not b and any(f.startswith('.^') for f in y.fields) and idf not in y.fields)
+                        if from_queue and from_arg:
+                            ok = True
+            ctx.ob(p + 'b drop-decided-by-table-id %s #%s' % (fn, 'dequeue' if s in pops else 'unlink'), 'K3-guard', fn,
+                   'the table is dequeued / unlinked only when the id of the queue front equals the id named by the log record (replay of a DropTable whose table is already gone is a no-op)', ok, det, b.loc(s))
